@@ -287,6 +287,19 @@ def _evaluate(rp, st):
     return None, ("exp", o(x, element_wise=ew))
 
 
+@binding("EvaluateQ")
+def _evaluate_q(rp, st):
+    a = st["a"]
+    o = rp.heap[a["i"]]
+    x = stack_q(a["x"])
+    ew = bool(a["elementwise"])
+    if a["via"] == "evaluate_ln":
+        return None, ("ln", o.evaluate_ln(x, ew))
+    if a["via"] == "evaluate":
+        return None, ("exp", o.evaluate(x, ew))
+    return None, ("exp", o(x, element_wise=ew))
+
+
 def compare_ret(st, ret):
     """ret: (kind, value) returned by the binding; st["ret"]: decoded expected record."""
     exp = st["ret"]
